@@ -13,7 +13,9 @@ PROPERTIES = {
         "respected; Scenario._generateInner activates each soft requirement once with `u <= prob`, counts attempts exactly, raises "
         "RejectionException exactly when the budget is exhausted, checks exactly the sample of the current attempt, returns the scene of "
         "an accepted sample, and leaves both global generators as if the checker had drawn nothing; clone()/resample build a fresh node "
-        "over the very same parameter objects",
+        "over the very same parameter objects; the closure of a compiled requirement evaluates its condition exactly once with every "
+        "captured global name and closure cell holding the sampled value of the binding at the statement, and restores the namespace "
+        "and the cells on exit",
         note="the step from these clauses to 'conditional distribution' is the textbook rejection-sampling lemma (DESIGN.md appendix), "
         "stated over the contracts, not proved mechanically",
         assumptions=[
@@ -25,7 +27,7 @@ PROPERTIES = {
         not_reached=[
             "external samplers (VerifAI) beyond the call protocol",
             "continuous region samplers (C03)",
-            "PendingRequirement.compile closure rebinding (item 4 of the plan)",
+            "PendingRequirement.__init__ / getNameBindings (which names and cells are captured: inspect.getclosurevars is trusted)",
             "TruncatedNormal.sampleGiven (erf / erfinv not modelled)",
         ],
         bounded=[
